@@ -59,13 +59,19 @@ theorem rdN_le (k n : Nat) (rest : Bytes) (h : 0 < k) :
 /-- record well-formedness: what the writer can emit and the reader accepts -/
 structure DynRec.WF (r : DynRec) : Prop where
   proto : r.proto < 2 ^ 32
-  name_pos : 0 < r.name.length
   name_le : r.name.length ≤ maxLen
   pkt_pos : 0 < r.pkt.length
   pkt_le : r.pkt.length ≤ maxLen
 
+theorem rdN0_append (a rest : Bytes) : rdN0 a.length (a ++ rest) = some (a, rest) := by
+  unfold rdN0
+  by_cases h : a.length = 0
+  · have : a = [] := List.eq_nil_of_length_eq_zero h
+    subst this; simp
+  · rw [if_neg h]; exact rdN_append a rest (by omega)
+
 theorem dynRead_enc (r : DynRec) (rest : Bytes) (h : r.WF) :
-    dynRead (encDyn r ++ rest) = ([szProto, szLen, r.name.length, szLen, r.pkt.length], some (r, rest)) := by
+    dynRead (encDyn r ++ rest) = ([szProto, szLen] ++ nz r.name.length ++ [szLen, r.pkt.length], some (r, rest)) := by
   have e : encDyn r ++ rest = le szProto r.proto ++ (le szLen r.name.length ++ (r.name ++
       (le szLen r.pkt.length ++ (r.pkt ++ rest)))) := by
     simp [encDyn, List.append_assoc]
@@ -75,7 +81,7 @@ theorem dynRead_enc (r : DynRec) (rest : Bytes) (h : r.WF) :
   rw [e]
   unfold dynRead
   simp only [rdN_le _ _ _ hszP, rdN_le _ _ _ hszL, unle_le_len _ h.name_le, unle_le_len _ h.pkt_le,
-    badLen_false _ h.name_le, badLen_false _ h.pkt_le, rdN_append _ _ h.name_pos, rdN_append _ _ h.pkt_pos, hp]
+    badLen_false _ h.name_le, badLen_false _ h.pkt_le, rdN0_append, rdN_append _ _ h.pkt_pos, hp]
   simp
 
 /-! ## observe records -/
@@ -372,7 +378,8 @@ theorem cntLine_enc (r : CntRec) (rest : Bytes) (h : r.WF) :
 
 /-! ## non-vacuity of the well-formedness predicates -/
 
-example : DynRec.WF ⟨1, [97], [80, 3]⟩ := ⟨by decide, by decide, by decide, by decide, by decide⟩
+example : DynRec.WF ⟨1, [97], [80, 3]⟩ := ⟨by decide, by decide, by decide, by decide⟩
+example : DynRec.WF ⟨1, [], [80, 3]⟩ := ⟨by decide, by decide, by decide, by decide⟩
 
 example : ObsRec.WF ⟨5, 1, List.replicate 32 0, List.replicate 64 0, [64, 1], none⟩ :=
   ⟨by decide, by decide, by decide, by decide, by decide, by decide, by intro o ho; cases ho⟩
